@@ -507,7 +507,7 @@ def run_C09(ctx):
              ("rel", "E6", 1 if q else 2, 0, envs(NOARENA, RF, NORECL)), ("rel", "E6", 1 if q else 2, 0, envs(RF, NORECL)), ("rel", "E6", 1, 0, envs(NOARENA, NORECL)), ("dbg", "E6", 1, 0, envs(NOARENA, RF, NORECL)),
              ("rel", "E7", 1 if q else 2, 0, {}), ("rel", "E7", 1 if q else 2, 0, NORECL), ("dbg", "E7", 1, 0, {}),
              ("rel", "E8", 2, 0, {"MIMALLOC_ARENA_RESERVE": "32MiB"}), ("dbg", "E8", 1, 0, {"MIMALLOC_ARENA_RESERVE": "32MiB"}),
-             ("rel", "E9", 2, 0, {}), ("rel", "E9", 2, 0, NOARENA), ("rel", "E9", 1 if q else 2, 0, RF), ("dbg", "E9", 1, 0, {})]
+             ("rel", "E10", 2, 0, {}), ("dbg", "E10", 1, 0, {}), ("rel", "E9", 2, 0, {}), ("rel", "E9", 2, 0, NOARENA), ("rel", "E9", 1 if q else 2, 0, RF), ("dbg", "E9", 1, 0, {})]
     if not q: plan += [("rel", "E1", 3, 1, RF), ("rel", "E5", 3, 1, RF), ("sec", "E1", 2, 1, RF), ("dbg", "E3", 2, 0, NOARENA), ("rel", "E3", 2, 0, ALL)]
     if not q: plan += [("rel", "E9", 3, 1, {}), ("rel", "E9", 3, 0, NOARENA), ("sec", "E9", 2, 0, RF), ("rel", "E8", 3, 0, {"MIMALLOC_ARENA_RESERVE": "32MiB"}), ("rel", "E7", 3, 0, {})]
     race = race_jobs(ctx, [(p, RF) for p in ("E1", "E2", "E3", "E4", "E5", "AB1")] + [("E1", {}), ("E2", NOARENA)])
